@@ -113,8 +113,15 @@ pub fn module_text(a: &AMod, with_offsets: bool, with_names: bool) -> String {
         s.push_str(" |");
     }
     if with_names {
-        if let Some(n) = a.names_lenient() {
+        // one group per `name` section, separated by `&`: walrus reads each section on its own
+        let secs = a.names_sections();
+        if !secs.is_empty() {
             s.push_str(" NM");
+        }
+        for (k, n) in secs.iter().enumerate() {
+            if k > 0 {
+                s.push_str(" &");
+            }
             if let Some(m) = &n.module {
                 s.push_str(&format!(" M{}", hex(m.as_bytes())));
             }
